@@ -7,6 +7,7 @@ import (
 
 	proto "github.com/kubewharf/kubebrain-client/api/v2rpc"
 
+	"github.com/kubewharf/kubebrain/pkg/backend/tso"
 	"github.com/kubewharf/kubebrain/pkg/zzmodel"
 	"github.com/kubewharf/kubebrain/pkg/zzverif"
 )
@@ -194,6 +195,98 @@ func VerifC07Compact() {
 	// every key stays writable with normal semantics
 	if zzverif.Param("after", 1) == 1 {
 		w.step()
+	}
+	zzverif.Cover("done")
+}
+
+// vScenario builds a fixed initial key history with symbolic values: 0 = create,delete (a
+// tombstone), 1 = create,update (two live versions), 2 = create,delete,create (re-created).
+func (w *vWorld) vScenario(sc int) {
+	key := vNames[0]
+	put := func(tag string, create bool) {
+		val := zzverif.Bytes(tag, 1)
+		if create {
+			resp, err := w.b.Create(vCtx(), &proto.CreateRequest{Key: key, Value: val})
+			zzverif.Assert(err == nil && resp.Succeeded, "scenario: create")
+			w.dealt++
+			w.g.Append(key, resp.Header.Revision, val, false)
+		} else {
+			cur, _ := w.g.At(key, 0)
+			resp, err := w.b.Update(vCtx(), &proto.UpdateRequest{Kv: &proto.KeyValue{Key: key, Value: val, Revision: cur.Rev}})
+			zzverif.Assert(err == nil && resp.Succeeded, "scenario: update")
+			w.dealt++
+			w.g.Append(key, resp.Header.Revision, val, false)
+		}
+	}
+	del := func() {
+		resp, err := w.b.Delete(vCtx(), &proto.DeleteRequest{Key: key})
+		zzverif.Assert(err == nil && resp.Succeeded, "scenario: delete")
+		w.dealt++
+		w.g.Append(key, resp.Header.Revision, nil, true)
+	}
+	put("sc0", true)
+	switch sc {
+	case 0:
+		del()
+	case 1:
+		put("sc1", false)
+	default:
+		del()
+		put("sc2", true)
+	}
+	zzverif.WaitIdle()
+}
+
+// VerifC07Race: a compaction racing one writer on the key being compacted (create over a
+// tombstone, update, delete), every interleaving of the compaction workers' and the writer's
+// store operations within the delay bound. The write keeps its normal semantics, reads at
+// revisions >= R are unchanged and the key stays writable afterwards.
+func VerifC07Race() {
+	w := vNewWorldTSO(1, func(t tso.TSO) tso.TSO { return &vYieldTSO{t} })
+	w.vScenario(zzverif.Choose("scenario", 3))
+	c := zzverif.U64("c")
+	zzverif.Assume(zzverif.And(c > w.base, c <= w.dealt))
+	req := w.newReq("wr")
+	wanted := req.wants(w.g)
+	w.s.Yield = zzverif.YieldAt
+	done := make(chan struct{}, 2)
+	zzverif.ExploreSchedules(zzverif.Param("preempt", 2))
+	zzverif.Go("compactor", func() {
+		w.b.Compact(vCtx(), c)
+		done <- struct{}{}
+	})
+	zzverif.Go("writer", func() {
+		w.issue(req)
+		done <- struct{}{}
+	})
+	<-done
+	<-done
+	zzverif.StopExploring()
+	w.s.Yield = nil
+	w.dealt++
+	zzverif.WaitIdle()
+	if req.err {
+		zzverif.Assert(req.exp > w.dealt, "racing write: error only for a future expected revision")
+	} else {
+		zzverif.Assert(req.ok == wanted, "a write racing the compaction keeps its normal semantics")
+		if req.ok {
+			req.apply(w.g)
+			zzverif.Cover("racing-write-succeeded")
+		}
+	}
+	r := zzverif.U64("R")
+	zzverif.Assume(zzverif.Or(r == 0, zzverif.And(r >= c, r <= w.dealt)))
+	w.checkGet(req.key, r)
+	// the key stays writable with normal semantics: the natural next write succeeds
+	key := req.key
+	if cur, live := w.g.At(key, 0); live {
+		resp, err := w.b.Update(vCtx(), &proto.UpdateRequest{Kv: &proto.KeyValue{Key: key, Value: []byte("z"), Revision: cur.Rev}})
+		zzverif.Assert(err == nil && resp.Succeeded, "after the race a live key accepts an update naming its latest revision")
+		cr, err := w.b.Create(vCtx(), &proto.CreateRequest{Key: key, Value: []byte("y")})
+		zzverif.Assert(err == nil && !cr.Succeeded, "after the race a live key refuses a second create")
+	} else {
+		cr, err := w.b.Create(vCtx(), &proto.CreateRequest{Key: key, Value: []byte("y")})
+		zzverif.Assert(err == nil && cr.Succeeded, "after the race an absent key can be created")
 	}
 	zzverif.Cover("done")
 }
